@@ -69,11 +69,20 @@ type FetchEvent struct {
 	Blocks  []sarama.VerifFetchBlock
 }
 
+// RefetchLimit: identical consecutive data-bearing fetches after which the client is considered to be in a livelock.
+const RefetchLimit = 40
+
 var fetchPartitionFaults = map[string]bool{"notleader": true, "unknown-error": true, "out-of-range": true, "missing": true}
 var fetchConnFaults = map[string]bool{"drop": true, "throttled-empty": true}
 
 func (cl *Cluster) fetchVariants(r *Req, req *sarama.FetchRequest) []gx.Variant {
 	blocks := sarama.VerifFetchBlocks(req)
+	if cl.RefetchLoop != "" {
+		// livelock made visible: the client asked for exactly the same data RefetchLimit times in a row
+		// although every answer carried data; the fetch stays unanswered so that the execution ends
+		// (and the rig's progress oracle judges it) instead of spinning to the step limit
+		return nil
+	}
 	if !cl.AnswerIdleFetch && cl.idleFetch(r, req, blocks) {
 		// long poll: a broker holds a fetch that has nothing to return until data arrives or MaxWaitTime
 		// expires, i.e. until (fake) time has passed since the request arrived: it becomes answerable
@@ -129,6 +138,17 @@ func (cl *Cluster) idleFetch(r *Req, req *sarama.FetchRequest, blocks []sarama.V
 
 func (cl *Cluster) doFetch(r *Req, req *sarama.FetchRequest, blocks []sarama.VerifFetchBlock, fault string, faultIdx int) {
 	cl.Fetched = append(cl.Fetched, FetchEvent{Conn: r.Conn.Label, Broker: r.Conn.Node.ID, Version: req.Version, Fault: fault, Blocks: blocks})
+	if key := fmt.Sprint(blocks); fault == "ok" && faultIdx < 0 && key == cl.lastFetchKey && !cl.idleFetch(r, req, blocks) {
+		cl.sameFetch++
+		if cl.sameFetch >= RefetchLimit {
+			cl.RefetchLoop = fmt.Sprintf("%d identical consecutive fetches %s, each answered with data", cl.sameFetch, key)
+		}
+	} else {
+		cl.lastFetchKey, cl.sameFetch = key, 1
+		if fault != "ok" {
+			cl.lastFetchKey = ""
+		}
+	}
 	if fault == "drop" {
 		cl.drop(r.Conn)
 		return
